@@ -58,39 +58,24 @@ theorem function_read_in_range_sound (base sz off n : BitVec 64) (hv : base.toNa
 
 example : function_read_in_range 0x400000#64 0x10#64 0x40000c#64 4#64 = true := by decide
 
-/-- **F10.** The full-strength statement is FALSE for `is_valid_ptr` as written in yara 4.5.2 (elf.c:309-310, frozen copy
-    `Lemmas/Bounds.is_valid_ptr_v452`; the live text is `Gen.Bounds.is_valid_ptr` and is searched for such tuples on every
-    run by vf/checks/c06.py): `ptr + ptr_size` wraps around for `ptr` near 2^64 (`ptr` is `elf_raw + <64-bit file offset>`).
-    Witness: a valid 4 KiB buffer at 0x1000, ptr = 2^64-8, ptr_size = 16 is accepted. -/
-theorem is_valid_ptr_v452_unsound_witness :
-    ∃ b sz p n : BitVec 64, b.toNat + sz.toNat < 2 ^ 64 ∧ is_valid_ptr_v452 b sz p n = true ∧ ¬ InRange b sz p n :=
-  ⟨0x1000#64, 0x1000#64, 0xFFFFFFFFFFFFFFF8#64, 16#64, by decide, by decide, by unfold InRange; decide⟩
-
-/-- What does hold: `is_valid_ptr` is sound when `ptr + ptr_size` does not wrap (extra hypothesis `hp`).
-    Full statement (false for the 4.5.2 text, see witness): the same without `hp`. -/
-theorem is_valid_ptr_sound_partial (b sz p n : BitVec 64) (hv : b.toNat + sz.toNat < 2 ^ 64)
-    (hp : p.toNat + n.toNat < 2 ^ 64)
+/-- **`is_valid_ptr`** (elf.c; all users of IS_VALID_PTR and the symbol / string table tests): full-strength soundness of the
+    GENERATED definition (the text of /repo on this run), for all 64-bit values, under allocation validity only.
+    (Fixed by /repo 6105253; the 4.5.2 text `ptr + ptr_size <= base + size` is unsound, see the regression example below.) -/
+theorem is_valid_ptr_sound (b sz p n : BitVec 64) (hv : b.toNat + sz.toNat < 2 ^ 64)
     (h : is_valid_ptr b sz p n = true) : InRange b sz p n := by
-  -- (simp set covers both the 4.5.2 text and the subtraction form of notes/C06-is_valid_ptr.diff)
   simp only [is_valid_ptr, Bool.and_eq_true, decide_eq_true_eq, BitVec.le_def, BitVec.toNat_add, BitVec.toNat_sub] at h
   unfold InRange
   omega
 
 example : is_valid_ptr 0x1000#64 0x1000#64 0x1ff0#64 16#64 = true := by decide
+/-- regression example (F10, fixed): the tuple that the frozen 4.5.2 text accepted is rejected by the current text -/
+example : is_valid_ptr_v452 0x1000#64 0x1000#64 0xFFFFFFFFFFFFFFF8#64 16#64 = true ∧
+    is_valid_ptr 0x1000#64 0x1000#64 0xFFFFFFFFFFFFFFF8#64 16#64 = false := by decide
 
-/-- The repaired test proposed in notes/C06-is_valid_ptr.diff (by subtraction) is sound without `hp`. -/
-theorem is_valid_ptr_fixed_sound (b sz p n : BitVec 64) (hv : b.toNat + sz.toNat < 2 ^ 64)
-    (h : (decide (b ≤ p) && decide (n ≤ sz) && decide (p - b ≤ sz - n)) = true) : InRange b sz p n := by
-  simp only [Bool.and_eq_true, decide_eq_true_eq, BitVec.le_def, BitVec.toNat_sub] at h
-  unfold InRange
-  omega
-
-/-- arena.c relocation test at load time: an *accepted* relocation entry addresses 8 bytes inside the buffer.
-    PARTIAL: stated with `used ≥ 8`, which the 4.5.2 text needs (`b->used - sizeof(void*)` wraps below that, F9 family,
-    witness below); texts that test `used < sizeof(void*)` themselves satisfy the hypothesis-free statement as well
-    (`arena_reloc_accept_sound_v2`, proved over a frozen copy of that form). The proof only uses the Nat meaning of the
-    disjuncts, not their order, so regrouping the test into several `if`s does not break it. -/
-theorem arena_reloc_accept_sound_partial (id nb off used bd : BitVec 64) (hu : 8 ≤ used.toNat)
+/-- arena.c relocation test at load time (generated from the current text, which tests `used < sizeof(void*)` itself):
+    an *accepted* relocation entry addresses 8 bytes inside the buffer — for ALL values, no side hypothesis.
+    The proof only uses the Nat meaning of the disjuncts, not their grouping into `if`s. -/
+theorem arena_reloc_accept_sound (id nb off used bd : BitVec 64)
     (h : arena_reloc_reject id nb off used bd = false) :
     id.toNat < nb.toNat ∧ off.toNat + 8 ≤ used.toNat ∧ bd.toNat ≠ 0 := by
   simp only [arena_reloc_reject, Bool.or_eq_false_iff, decide_eq_false_iff_not, BitVec.le_def,
@@ -99,19 +84,10 @@ theorem arena_reloc_accept_sound_partial (id nb off used bd : BitVec 64) (hu : 8
   have h0 : (0#64).toNat = 0 := by decide
   omega
 
-/-- the stricter form (explicit `used < sizeof(void*)` test) is sound for ALL values, no side hypothesis -/
-theorem arena_reloc_accept_sound_v2 (id nb off used bd : BitVec 64)
-    (h : arena_reloc_reject_v2 id nb off used bd = false) :
-    id.toNat < nb.toNat ∧ off.toNat + 8 ≤ used.toNat ∧ bd.toNat ≠ 0 := by
-  simp only [arena_reloc_reject_v2, Bool.or_eq_false_iff, decide_eq_false_iff_not, BitVec.le_def,
-    BitVec.lt_def, BitVec.toNat_sub, beq_eq_false_iff_ne, ne_eq, BitVec.toNat_eq] at h
-  have h8 : (8#64).toNat = 8 := by decide
-  have h0 : (0#64).toNat = 0 := by decide
-  omega
-
-theorem arena_reloc_v452_unsound_witness :
-    ∃ id nb off used bd : BitVec 64, arena_reloc_reject_v452 id nb off used bd = false ∧ ¬ off.toNat + 8 ≤ used.toNat :=
-  ⟨0#64, 1#64, 0xFFFFFF00#64, 4#64, 1#64, by decide, by decide⟩
+example : arena_reloc_reject 0#64 1#64 8#64 16#64 1#64 = false := by decide
+/-- regression example (F9 family, fixed): the frozen 4.5.2 test accepted offset 0xFFFFFF00 in a 4-byte buffer -/
+example : arena_reloc_reject_v452 0#64 1#64 0xFFFFFF00#64 4#64 1#64 = false ∧
+    arena_reloc_reject 0#64 1#64 0xFFFFFF00#64 4#64 1#64 = true := by decide
 
 /-- Mach-O fat archive entry (macho.c): an entry that passes both tests lies inside the file, for all values. -/
 theorem macho_fat_entry_sound (sz off asz : BitVec 64)
@@ -160,6 +136,103 @@ theorem dotnet_string_start_sound (data sz st idx hs : BitVec 64) (hv : data.toN
     BitVec.toNat_add] at h
   have h1 : (1#64).toNat = 1 := by decide
   unfold InRange
+  omega
+
+/-- pe.c `available_space`: when neither early return is taken, the pointer is inside the file and the returned
+    count is exactly the number of bytes from it to the end of the file. -/
+theorem pe_available_space_sound (data sz p : BitVec 64) (hv : data.toNat + sz.toNat < 2 ^ 64)
+    (h1 : pe_available_before data sz p = false) (h2 : pe_available_after data sz p = false) :
+    data.toNat ≤ p.toNat ∧ p.toNat + (pe_available_value data sz p).toNat = data.toNat + sz.toNat := by
+  simp only [pe_available_before, pe_available_after, pe_available_value, decide_eq_false_iff_not, BitVec.le_def,
+    BitVec.lt_def, BitVec.toNat_add, BitVec.toNat_sub] at h1 h2 ⊢
+  omega
+
+example : pe_available_before 0x1000#64 0x100#64 0x10f0#64 = false ∧ pe_available_after 0x1000#64 0x100#64 0x10f0#64 = false ∧
+    pe_available_value 0x1000#64 0x100#64 0x10f0#64 = 0x10#64 := by decide
+
+/-- pe.c export tables: `n * sizeof(DWORD) > data_size - offset` rejected ⇒ the n-entry table at `offset` lies in the file
+    (`offset` is a result of pe_rva_to_offset, hence `≤ data_size`; `n` is a uint32 so the product cannot wrap). -/
+theorem pe_exports_table_sound (sz off n : BitVec 64) (ho : off.toNat ≤ sz.toNat) (hn : n.toNat < 2 ^ 32)
+    (h : pe_exports_table_outside sz off n = false) : off.toNat + 4 * n.toNat ≤ sz.toNat := by
+  have h4 : (4#64).toNat = 4 := by decide
+  simp only [pe_exports_table_outside, decide_eq_false_iff_not, BitVec.lt_def, BitVec.toNat_sub, BitVec.toNat_mul, h4] at h
+  omega
+
+theorem pe_export_names_sound (sz off n : BitVec 64) (ho : off.toNat ≤ sz.toNat) (hn : n.toNat < 2 ^ 32)
+    (h : pe_export_names_outside sz off n = false) : off.toNat + 4 * n.toNat ≤ sz.toNat := by
+  have h4 : (4#64).toNat = 4 := by decide
+  simp only [pe_export_names_outside, decide_eq_false_iff_not, BitVec.lt_def, BitVec.toNat_sub, BitVec.toNat_mul, h4] at h
+  omega
+
+example : pe_exports_table_outside 0x1000#64 0xff0#64 4#64 = false ∧ pe_exports_table_outside 0x1000#64 0xff0#64 5#64 = true := by decide
+
+/-- pe.c Rich-header search (F60): the test before `p = pe->data + nthdr_offset - 4; … *p` accepts `nthdr_offset` up to
+    `data_size + 4`, i.e. a 4-byte read that may end 4 bytes past the file. PARTIAL: sound only with the extra hypothesis
+    `nthdr_offset ≤ data_size`, which the only caller establishes beforehand (pe_get_header accepted the same e_lfanew), so no
+    input reaches the gap today. Full statement (false for the current text, witness `pe_rich_nthdr_v452_unsound_witness`):
+    the same without `hn`. Proposed one-token patch: notes/C06-rich-nthdr.diff. -/
+theorem pe_rich_nthdr_sound_partial (sz off : BitVec 64) (hs : sz.toNat + 4 < 2 ^ 64) (hn : off.toNat ≤ sz.toNat)
+    (h : pe_rich_nthdr_reject sz off = false) : 4 ≤ off.toNat ∧ (off.toNat - 4) + 4 ≤ sz.toNat := by
+  simp only [pe_rich_nthdr_reject, Bool.or_eq_false_iff, decide_eq_false_iff_not, BitVec.lt_def, BitVec.toNat_add] at h
+  have h4 : (4#64).toNat = 4 := by decide
+  omega
+
+/-- pe.c security directory (F61): `VirtualAddress + Size` is computed in 32 bits (both are `yr_le32toh(...)`), so the
+    sum can wrap for files of 2 GiB and more. PARTIAL: sound for `data_size < 2^31`; witness for larger files
+    `pe_security_dir_v452_unsound_witness`. Proposed patch: notes/C06-security-dir.diff. -/
+theorem pe_security_dir_sound_partial (sz va n : BitVec 64) (hs : sz.toNat < 2 ^ 31)
+    (h : pe_security_dir_reject sz va n = false) : 0 < va.toNat ∧ va.toNat + n.toNat ≤ sz.toNat := by
+  simp only [pe_security_dir_reject, Bool.or_eq_false_iff, decide_eq_false_iff_not, BitVec.lt_def, BitVec.toNat_add,
+    beq_eq_false_iff_ne, ne_eq, BitVec.toNat_eq, toNat_w32] at h
+  have h0 : (0#64).toNat = 0 := by decide
+  omega
+
+/-- dotnet.c blob tests. `blob_offset`/`offset` are pointers formed from file fields, lengths are 32-bit; the additions
+    on the left cannot wrap when the buffer does not end within 4 GiB of the top of the address space (`hv`), and the
+    pointer is known to be ≥ `data` from the preceding `fits_in_pe` (`hp`). PARTIAL w.r.t. plain allocation validity.
+    (Conclusions are the access ranges `[p, p+n) ⊆ buffer`, i.e. `≤`: a `>=`/`>` variation of the C test that keeps the access inside is not an alarm.) -/
+theorem dotnet_blob4_sound_partial (data sz p : BitVec 64) (hv : data.toNat + sz.toNat + 2 ^ 32 ≤ 2 ^ 64) (hp : p.toNat ≤ data.toNat + sz.toNat)
+    (h : dotnet_blob4_ok data sz p = true) : p.toNat + 4 ≤ data.toNat + sz.toNat := by
+  simp only [dotnet_blob4_ok, decide_eq_true_eq, BitVec.lt_def, BitVec.toNat_add] at h
+  have h4 : (4#64).toNat = 4 := by decide
+  omega
+
+theorem dotnet_blob_entry_sound_partial (data sz p n : BitVec 64) (hv : data.toNat + sz.toNat + 2 ^ 32 ≤ 2 ^ 64)
+    (hp : p.toNat ≤ data.toNat + sz.toNat) (hn : n.toNat < 2 ^ 32)
+    (h : dotnet_blob_entry_outside data sz p n = false) : p.toNat + n.toNat ≤ data.toNat + sz.toNat := by
+  simp only [dotnet_blob_entry_outside, decide_eq_false_iff_not, BitVec.le_def, BitVec.toNat_add] at h
+  omega
+
+theorem dotnet_attr_blob_sound_partial (data sz p n : BitVec 64) (hv : data.toNat + sz.toNat + 2 ^ 32 ≤ 2 ^ 64)
+    (hp : p.toNat ≤ data.toNat + sz.toNat) (hn : n.toNat < 2 ^ 32)
+    (h : dotnet_attr_blob_reject data sz p n = false) : 3 ≤ n.toNat ∧ p.toNat + n.toNat ≤ data.toNat + sz.toNat := by
+  simp only [dotnet_attr_blob_reject, Bool.or_eq_false_iff, decide_eq_false_iff_not, BitVec.le_def, BitVec.lt_def, BitVec.toNat_add] at h
+  have h3 : (3#64).toNat = 3 := by decide
+  omega
+
+theorem dotnet_attr_str_sound_partial (data sz p n : BitVec 64) (hv : data.toNat + sz.toNat + 2 ^ 32 ≤ 2 ^ 64)
+    (hp : p.toNat ≤ data.toNat + sz.toNat) (hn : n.toNat < 256)
+    (h : dotnet_attr_str_outside data sz p n = false) : p.toNat + n.toNat ≤ data.toNat + sz.toNat := by
+  simp only [dotnet_attr_str_outside, decide_eq_false_iff_not, BitVec.lt_def, BitVec.toNat_add] at h
+  omega
+
+/-- the index test accepts only pointers strictly inside the file (upper side; all values) -/
+theorem dotnet_blob_index_sound (data sz p i : BitVec 64) (hv : data.toNat + sz.toNat < 2 ^ 64)
+    (h : dotnet_blob_index_reject data sz p i = false) : i.toNat ≠ 0 ∧ p.toNat < data.toNat + sz.toNat := by
+  simp only [dotnet_blob_index_reject, Bool.or_eq_false_iff, decide_eq_false_iff_not, BitVec.le_def, BitVec.toNat_add,
+    beq_eq_false_iff_ne, ne_eq, BitVec.toNat_eq] at h
+  have h0 : (0#64).toNat = 0 := by decide
+  omega
+
+example : dotnet_blob_entry_outside 0x1000#64 0x100#64 0x1080#64 0x7f#64 = false ∧
+    dotnet_blob_entry_outside 0x1000#64 0x100#64 0x1080#64 0x80#64 = true := by decide
+
+/-- elf.c `str_table_entry`: an entry pointer that passes both tests is strictly below the table limit, and not below the
+    table base when `str_entry = base + index` with a non-negative 31-bit index does not wrap. -/
+theorem elf_str_entry_sound (base lim idx : BitVec 64) (hv : base.toNat + 2 ^ 31 ≤ 2 ^ 64) (hi : idx.toNat < 2 ^ 31)
+    (h1 : elf_str_table_empty base lim = false) (h2 : elf_str_entry_outside (base + idx) lim = false) :
+    base.toNat ≤ (base + idx).toNat ∧ (base + idx).toNat < lim.toNat := by
+  simp only [elf_str_table_empty, elf_str_entry_outside, decide_eq_false_iff_not, BitVec.le_def, BitVec.toNat_add] at h1 h2 ⊢
   omega
 
 /-- Mach-O load-command walk: every command handled by the loop has its 8-byte header and its whole
